@@ -104,7 +104,7 @@ func loadAll(repo, verifDir string, want map[string]bool) (*Loaded, error) {
 		return &Loaded{DB: db}, nil
 	}
 	t0 := time.Now()
-	cfg := &packages.Config{Mode: packages.LoadAllSyntax, Dir: repo, Tests: false, Env: loaderEnv()}
+	cfg := &packages.Config{Mode: packages.LoadAllSyntax, Dir: repo, Tests: false, Env: loaderEnv(), BuildFlags: []string{"-tags=verif"}}
 	pkgs, err := packages.Load(cfg, patterns...)
 	if err != nil {
 		return nil, err
